@@ -9,7 +9,7 @@ import sys, os
 sys.path.insert(0, "driver")
 import vdriver as vd
 from concurrent.futures import ThreadPoolExecutor
-names = ["rel", "rel-dbg", "avx2ct", "sse42ct", "nosimd", "nostd", "avx2ct-dbg", "sse42ct-dbg", "nosimd-dbg", "nostd-dbg"]
+names = ["rel", "rel-dbg", "ovf", "avx2ct", "sse42ct", "nosimd", "nostd", "avx2ct-dbg", "sse42ct-dbg", "nosimd-dbg", "nostd-dbg"]
 def b(n):
     try:
         vd.build(n)
